@@ -68,6 +68,11 @@ theorem centred_norm_le : ∀ (s1 : List Int) (cs : List Int),
     so everything `sign` returns had norm ≤ ⌊β²⌋ — and `verify` accepts at `≤` (no gap at equality) -/
 theorem sign_and_verify_agree_at_the_bound : Gen.signNormRetryGt = true ∧ Gen.verifyCmpLe = true := ⟨rfl, rfl⟩
 
+/-- the salt returned in the signature is the salt that was hashed: it is written exactly once (before
+    `hash_to_point`) and never again, also not on a retry of the compression loop -/
+theorem returned_salt_is_the_hashed_salt :
+    Gen.signSaltFills = 1 ∧ Gen.signSaltWrites = 2 ∧ Gen.signSaltBeforeHash = true := ⟨rfl, rfl, rfl⟩
+
 /-- what `SignSkel.signWith` returns is inside the bound and fits the budget (by construction of the model:
     these are the two retry conditions of `sign`) -/
 theorem signWith_ok_inside_bound (chk : Bool) (f g cF cG : List Int) (msg salt : List Nat) (z0 z1 : List Int)
